@@ -111,6 +111,7 @@ class Model:
         self._index()
         self._callgraph = None
         self.normalise_stats = {}
+        self.accessed_modules = set()   # relative paths consulted by rules
         if not os.environ.get('PV_NO_NORMALISE'):
             from . import normalise
             normalise.normalise(self, self.normalise_stats)
@@ -238,16 +239,19 @@ class Model:
     def module(self, name):
         if name not in self.modules:
             raise Vanished('module {} not found'.format(name))
+        self.accessed_modules.add(self.modules[name].relpath)
         return self.modules[name]
 
     def func(self, qual):
         if qual not in self.functions:
             raise Vanished('function {} not found'.format(qual))
+        self.accessed_modules.add(self.functions[qual].module.relpath)
         return self.functions[qual]
 
     def cls(self, qual):
         if qual not in self.classes:
             raise Vanished('class {} not found'.format(qual))
+        self.accessed_modules.add(self.classes[qual].module.relpath)
         return self.classes[qual]
 
     def has_func(self, qual):
@@ -277,6 +281,7 @@ class Model:
             mro = mro[mro.index(after) + 1:]
         for c in mro:
             if name in c.methods:
+                self.accessed_modules.add(c.module.relpath)
                 return c.methods[name]
         return None
 
